@@ -2,6 +2,8 @@
 import json
 import os
 import warnings
+
+os.environ['NUMBA_BOUNDSCHECK'] = '1'   # must precede the first numba import: a stray index becomes IndexError
 from pathlib import Path
 
 import numpy as np
@@ -10,11 +12,13 @@ import catexpect as cx
 
 THEOREMS = [
     'AbacusVerif.Catalog.load_append',
+    'AbacusVerif.Catalog.load_append_nofilter',
     'AbacusVerif.Catalog.load_filter',
     'AbacusVerif.Catalog.load_filter_none',
     'AbacusVerif.Catalog.load_filter_nothing',
     'AbacusVerif.Catalog.filter_sees_N',
     'AbacusVerif.Catalog.paths_spec',
+    'AbacusVerif.Catalog.paths_mixed_first',
 ]
 DRIVER = 'drv_c03'
 RULE = ('one evaluation = one experiment on the real CompaSOHaloCatalog: (glue) a load of a subset/order of superslab '
